@@ -2,7 +2,7 @@
 # usage: sweep.sh <tier> <seed> [ids...]  - runs checks sequentially, prints one summary line each
 TIER=${1:-quick}; SEED=${2:-1}; shift 2
 IDS=${@:-C01 C02 C03 C04 C05 C06 C07 C08 C09 C10 C11 C12 C13 C14 C15 C16 C17 C18 C19 C20}
-cd /verif
+cd "$(dirname "$(readlink -f "$0")")/.."
 for id in $IDS; do
   out=$(VERIF_SEED=$SEED ./check $id $TIER 2>&1); rc=$?
   echo "$id rc=$rc $(echo "$out" | grep -c '^VIOLATION') violations $(echo "$out" | grep -c '^KNOWN-FINDING') known | $(echo "$out" | tail -1)"
